@@ -359,3 +359,18 @@ func isWriteContext(p *Prog, info *types.Info, e ast.Expr) bool {
 		return false
 	}
 }
+
+// LockCallID classifies a call as acquiring ("lock") or releasing ("unlock") a mutex and names the mutex.
+func LockCallID(info *types.Info, call *ast.CallExpr) (id string, kind string) {
+	op, ok := classifyLockCall(info, call)
+	if !ok {
+		return "", ""
+	}
+	switch op.kind {
+	case 1, 2, 4:
+		return op.id, "lock"
+	case 3:
+		return op.id, "unlock"
+	}
+	return op.id, "try"
+}
